@@ -2,6 +2,7 @@ package p_states
 
 import (
 	"fmt"
+	"runtime"
 	"strings"
 	"sync"
 	"testing"
@@ -21,6 +22,55 @@ type c05State struct {
 	puts     int
 	problems []string // recorded inside the pool callback (cannot fail the test from there), reported at the next check
 	sigs     []string
+
+	// ---- finished stage points (the ballotbox has moved past them)
+	//
+	// A key (stage point, suffrage-confirm flag) counts as finished once the height of box.LastPoint() is above the key's height:
+	// the last point never goes back to a lower height, so from then on no ballot of that key is a new ballot, whatever the
+	// majority / suffrage-confirm flags of the last point are (inside one height the box deliberately re-admits some lower
+	// points, e.g. suffrage-confirm ballots after a draw; those are not judged). Everything is taken "as of the previous check",
+	// i.e. before the current step began, so that the verdict does not depend on the order of events inside a step.
+	prevLastH base.Height                 // height of box.LastPoint() read at the previous check
+	prevSnap  map[string]map[uintptr]bool // key -> records (table + waiting-for-release list) at the previous check
+	fin       map[string]map[uintptr]bool // finished key -> records it had when it was first seen finished and that are not released yet
+	relAll    map[string]int              // key -> releases so far
+	relFin    int                         // releases of records of finished keys (legitimate ones)
+	expelOps  map[int64][]base.SuffrageExpelOperation
+}
+
+// legit returns the not yet released records of a finished key; ok=false when the key was not finished at the previous check.
+// The caller holds s.mu.
+func (s *c05State) legit(key string, h base.Height) (m map[uintptr]bool, ok bool) {
+	if m, ok = s.fin[key]; ok {
+		return m, true
+	}
+
+	if h >= s.prevLastH {
+		return nil, false
+	}
+
+	m = map[uintptr]bool{}
+	for id := range s.prevSnap[key] {
+		m[id] = true
+	}
+
+	if s.fin == nil {
+		s.fin = map[string]map[uintptr]bool{}
+	}
+
+	s.fin[key] = m
+
+	return m, true
+}
+
+// gone: the key is finished and none of the records it had is left (all released, or it never had one).
+func (s *c05State) gone(p base.StagePoint, isc bool) bool {
+	s.mu.Lock()
+	defer s.mu.Unlock()
+
+	m, ok := s.legit(c05Key(p, isc), p.Height())
+
+	return ok && len(m) == 0
 }
 
 func (s *c05State) attach(w *bbWorld) {
@@ -46,6 +96,32 @@ func (s *c05State) attach(w *bbWorld) {
 				s.problems = append(s.problems, fmt.Sprintf("record %#x (%v sc=%v) released to the pool while the record table still holds it under key %q", id, point, isc, rec.Key))
 			}
 		}
+
+		// released exactly once: after the box has moved past a stage point, only the records the point had at that time may be
+		// released, each once. Any other release is the release of a record that was created for a finished point.
+		key := c05Key(point, isc)
+
+		if m, ok := s.legit(key, point.Height()); ok {
+			switch {
+			case m[id]:
+				delete(m, id)
+				s.relFin++
+			case s.relAll[key] > 0:
+				s.sigs = append(s.sigs, "finished-point-released-again")
+				s.problems = append(s.problems, fmt.Sprintf("a record of %v sc=%v was released to the pool although the ballotbox had moved past that point before (last height %d) "+
+					"and the record did not exist then; the records of this point were already released %d time(s): released more than once", point, isc, s.prevLastH, s.relAll[key]))
+			default:
+				s.sigs = append(s.sigs, "finished-point-record-never-live")
+				s.problems = append(s.problems, fmt.Sprintf("a record of %v sc=%v was released to the pool although the ballotbox had moved past that point before (last height %d) "+
+					"and the point had no record then: a record was created for a finished point", point, isc, s.prevLastH))
+			}
+		}
+
+		if s.relAll == nil {
+			s.relAll = map[string]int{}
+		}
+
+		s.relAll[key]++
 	})
 }
 
@@ -75,10 +151,37 @@ func (s *c05State) check(t ev.TB, r *ev.Rec, w *bbWorld) {
 		r.Violation(t, sigs[i], "%s\n  history:\n    %s", problems[i], hist())
 	}
 
+	// the box's position first, then the table, then the waiting list (a record only moves table -> waiting list -> pool)
+	curLastH := w.box.LastPoint().Height()
+	table := w.box.VerifRecords()
+	waiting := w.box.VerifRemoved()
+
+	// a record of a finished point is never (re-)created: every record found in the table for a key that was already finished
+	// before this step began must be one of the records the key had then
+	var recreated []string
+
+	s.mu.Lock()
+	for _, rec := range table {
+		if rec.Point.IsZero() {
+			continue
+		}
+
+		if m, ok := s.legit(c05Key(rec.Point, rec.ISC), rec.Point.Height()); ok && !m[rec.ID] {
+			recreated = append(recreated, fmt.Sprintf("the record table holds a record (key %q, %#x) of %v sc=%v although the ballotbox had moved past that point before this step (last height %d) "+
+				"and the point did not have this record then (it had %d unreleased record(s); %d release(s) so far): a record of a finished point was created",
+				rec.Key, rec.ID, rec.Point, rec.ISC, s.prevLastH, len(m), s.relAll[c05Key(rec.Point, rec.ISC)]))
+		}
+	}
+	s.mu.Unlock()
+
+	for i := range recreated {
+		r.Violation(t, "finished-point-record-recreated", "%s\n  history:\n    %s", recreated[i], hist())
+	}
+
 	// record table: one object per key, object holds the point it is stored under, never a released (zero) record
 	byID := map[uintptr]string{}
 
-	for _, rec := range w.box.VerifRecords() {
+	for _, rec := range table {
 		if other, found := byID[rec.ID]; found {
 			r.Violation(t, "record-aliased", "the same record object %#x is stored under two keys %q and %q\n  history:\n    %s", rec.ID, other, rec.Key, hist())
 		}
@@ -128,7 +231,30 @@ func (s *c05State) check(t ev.TB, r *ev.Rec, w *bbWorld) {
 			votedNodes[sf.Node().String()] = true
 		}
 
+		// no longer consulted: a finished point whose records are all released (or that never had one) answers nothing
+		gone := s.gone(sp, false)
+		if gone && len(votedNodes) > 0 {
+			r.Violation(t, "voted-from-released-point", "Voted(%v) answers with %d sign fact(s) although the ballotbox has moved past that point and its records were released\n  history:\n    %s",
+				sp, len(votedNodes), hist())
+		}
+
 		missing, found, err := w.box.MissingNodes(sp)
+
+		if gone {
+			if found {
+				r.Violation(t, "missing-nodes-from-released-point", "MissingNodes(%v) answers found=true missing=%v although the ballotbox has moved past that point and its records were released\n  history:\n    %s",
+					sp, missing, hist())
+			}
+
+			if w.n >= 3 {
+				svp, serr := w.box.StuckVoteproof(sp, s.expels(w, int64(sp.Height())))
+				if serr == nil && svp != nil {
+					r.Violation(t, "stuck-voteproof-from-released-point", "StuckVoteproof(%v) answers with a voteproof although the ballotbox has moved past that point and its records were released\n  history:\n    %s",
+						sp, hist())
+				}
+			}
+		}
+
 		if err != nil || !found {
 			continue
 		}
@@ -148,33 +274,306 @@ func (s *c05State) check(t ev.TB, r *ev.Rec, w *bbWorld) {
 			seen[a.String()] = true
 		}
 	}
-}
 
-func c05ParsePoint(s string) (base.StagePoint, bool) {
-	// the world only uses heights 32..36, rounds 0..2: find the stage point whose String() is s
-	for h := int64(32); h <= 36; h++ {
-		for r := uint64(0); r <= 2; r++ {
-			for _, st := range []base.Stage{base.StageINIT, base.StageACCEPT} {
-				sp := base.NewStagePoint(base.RawPoint(h, r), st)
-				if sp.String() == s {
-					return sp, true
-				}
+	// what exists now is what a key that is finished now can legitimately still have
+	snap := map[string]map[uintptr]bool{}
+
+	for _, recs := range [][]isaacstates.VerifRecord{table, waiting} {
+		for _, rec := range recs {
+			if rec.Point.IsZero() {
+				continue
 			}
+
+			k := c05Key(rec.Point, rec.ISC)
+			if snap[k] == nil {
+				snap[k] = map[uintptr]bool{}
+			}
+
+			snap[k][rec.ID] = true
 		}
 	}
 
-	return base.StagePoint{}, false
+	s.mu.Lock()
+	s.prevSnap, s.prevLastH = snap, curLastH
+	s.mu.Unlock()
+}
+
+func (s *c05State) expels(w *bbWorld, h int64) []base.SuffrageExpelOperation {
+	if s.expelOps == nil {
+		s.expelOps = map[int64][]base.SuffrageExpelOperation{}
+	}
+
+	if _, found := s.expelOps[h]; !found {
+		s.expelOps[h] = w.expels(h, "full")
+	}
+
+	return s.expelOps[h]
+}
+
+var (
+	c05PointsOnce sync.Once
+	c05Points     map[string]base.StagePoint
+)
+
+func c05ParsePoint(s string) (base.StagePoint, bool) {
+	// the worlds only use heights 32..42, rounds 0..2: find the stage point whose String() is s
+	c05PointsOnce.Do(func() {
+		c05Points = map[string]base.StagePoint{}
+
+		for h := int64(32); h <= 42; h++ {
+			for r := uint64(0); r <= 2; r++ {
+				for _, st := range []base.Stage{base.StageINIT, base.StageACCEPT} {
+					sp := base.NewStagePoint(base.RawPoint(h, r), st)
+					c05Points[sp.String()] = sp
+				}
+			}
+		}
+	})
+
+	sp, found := c05Points[s]
+
+	return sp, found
+}
+
+// ---- second generator: the box walks up the heights stage by stage (so that every stage point is moved past, removed by one
+// cleanup and released by the next), and late or replayed ballots for points at or below the box's position keep arriving
+
+const c05MaxHeight = 40
+
+func c05DescPoint(d bbBallotDesc) (base.StagePoint, bool) {
+	stage := base.StageINIT
+	if strings.HasPrefix(d.Kind, "accept") {
+		stage = base.StageACCEPT
+	}
+
+	return base.NewStagePoint(bbPoint(d.Height, d.Round), stage), strings.HasPrefix(d.Kind, "sc")
+}
+
+var c05LateKinds = []string{"init", "init", "initX", "initExpel", "sc", "sc", "sc", "scX", "accept", "accept", "acceptX", "acceptExpel"}
+
+func c05Machine(rt *rapid.T, r *ev.Rec, st *c05State) (w *bbWorld, counted, lateGone int) {
+	n := rapid.IntRange(3, 5).Draw(rt, "n")
+	th := base.Threshold(rapid.SampledFrom([]float64{67, 67, 60, 80, 100}).Draw(rt, "threshold"))
+	localIdx := rapid.SampledFrom([]int{0, 0, n}).Draw(rt, "localIdx") // member or not a member
+
+	w = newBBWorld(n, th, localIdx)
+	w.baselineG = runtime.NumGoroutine()
+	w.kinds = bbKindsC05
+
+	st.attach(w)
+	defer st.detach()
+
+	check := func() {
+		w.settle()
+
+		for _, vp := range w.drain() {
+			w.emitted = append(w.emitted, vp)
+
+			if bbCheckEmitted(rt, r, w, vp) {
+				counted++
+			}
+		}
+
+		st.check(rt, r, w)
+	}
+
+	vote := func(t *rapid.T, d bbBallotDesc) {
+		if _, _, err := w.vote(d); err != nil {
+			t.Fatalf("Vote error: %v", err)
+		}
+	}
+
+	var (
+		cur     = int64(33) // the height the walk is at
+		program []string    // stages of the current height still to run
+		sent    []bbBallotDesc
+		ran     []bbBallotDesc // one descriptor per stage run of the walk
+	)
+
+	newProgram := func(t *rapid.T) {
+		switch rapid.IntRange(0, 2).Draw(t, "program") {
+		case 0:
+			program = []string{"initExpel", "sc", "acceptExpel"} // expel at INIT, suffrage confirm, ACCEPT
+		default:
+			program = []string{"init", "accept"}
+		}
+	}
+
+	late := func(t *rapid.T, d bbBallotDesc) {
+		if sp, isc := c05DescPoint(d); st.gone(sp, isc) {
+			lateGone++
+		}
+
+		vote(t, d)
+		sent = append(sent, d)
+	}
+
+	actions := map[string]func(*rapid.T){
+		"stage": func(t *rapid.T) {
+			// the next stage of the current height, voted by (almost) every node that may vote it
+			if cur > c05MaxHeight {
+				t.Skip("top height reached")
+			}
+
+			if len(program) < 1 {
+				newProgram(t)
+			}
+
+			d := bbBallotDesc{Height: cur, Kind: program[0], ExpelBy: "full"}
+			program = program[1:]
+
+			voters := make([]int, 0, w.n)
+
+			for i := 0; i < w.n; i++ {
+				if d.Kind != "init" && d.Kind != "accept" && i == w.expelTarget() {
+					continue
+				}
+
+				voters = append(voters, i)
+			}
+
+			start := rapid.IntRange(0, len(voters)-1).Draw(t, "start")
+			k := len(voters)
+
+			if rapid.IntRange(0, 5).Draw(t, "short") == 0 {
+				k--
+			}
+
+			w.history = append(w.history, fmt.Sprintf("stage %s@%d by %d of %d", d.Kind, cur, k, len(voters)))
+
+			for i := 0; i < k; i++ {
+				d.Node = voters[(start+i)%len(voters)]
+				vote(t, d)
+				sent = append(sent, d)
+			}
+
+			ran = append(ran, d)
+
+			if len(program) < 1 {
+				cur++
+			}
+		},
+		"late": func(t *rapid.T) {
+			// ballots for stage points at or below the walk's position: mostly points the box has moved past, often ones whose
+			// record was already removed and released; ordinary and suffrage-confirm, honest and conflicting, any signer
+			m := rapid.IntRange(1, 4).Draw(t, "m")
+			w.history = append(w.history, fmt.Sprintf("late x%d", m))
+
+			for i := 0; i < m; i++ {
+				d := bbBallotDesc{
+					Height:  int64(rapid.IntRange(33, int(min(cur, c05MaxHeight))).Draw(t, "height")),
+					Round:   uint64(rapid.SampledFrom([]int{0, 0, 0, 1}).Draw(t, "round")),
+					Kind:    rapid.SampledFrom(c05LateKinds).Draw(t, "kind"),
+					ExpelBy: rapid.SampledFrom([]string{"full", "full", "full", "one", "expired"}).Draw(t, "expelBy"),
+				}
+
+				if len(ran) > 0 && rapid.IntRange(0, 2).Draw(t, "ofRanStage") > 0 {
+					// a stage the walk really ran (it had a record): another ballot of that stage point, or a
+					// suffrage-confirm ballot for it
+					o := ran[rapid.IntRange(0, len(ran)-1).Draw(t, "stage")]
+					d.Height, d.Round = o.Height, o.Round
+
+					switch {
+					case strings.HasPrefix(o.Kind, "accept"):
+						d.Kind = rapid.SampledFrom([]string{"accept", "acceptX", "acceptExpel"}).Draw(t, "akind")
+					default:
+						d.Kind = rapid.SampledFrom([]string{"init", "initX", "initExpel", "sc", "sc", "scX"}).Draw(t, "ikind")
+					}
+				}
+
+				if d.Height >= cur {
+					d.Round = 0 // a higher round of the walk's own height would end the walk's round 0 stages
+				}
+
+				d.Node = rapid.IntRange(0, w.n).Draw(t, "node")
+
+				late(t, d)
+			}
+		},
+		"replay": func(t *rapid.T) {
+			// the very same ballots once more (a ballot that reaches the node again through another peer)
+			if len(sent) < 1 {
+				t.Skip("nothing sent yet")
+			}
+
+			m := rapid.IntRange(1, 3).Draw(t, "m")
+			w.history = append(w.history, fmt.Sprintf("replay x%d", m))
+
+			for i := 0; i < m; i++ {
+				late(t, sent[rapid.IntRange(0, len(sent)-1).Draw(t, "sent")])
+			}
+		},
+		"noise": func(t *rapid.T) {
+			// a stray ballot around the walk's position (also ahead of it)
+			d := genBBDesc(w).Draw(t, "ballot")
+			d.Height = min(cur, c05MaxHeight) + int64(rapid.IntRange(0, 1).Draw(t, "ahead"))
+
+			if rapid.IntRange(0, 3).Draw(t, "keepRound") > 0 {
+				d.Round = 0
+			}
+
+			vote(t, d)
+			sent = append(sent, d)
+		},
+		"skipHeight": func(t *rapid.T) {
+			// the rest of the current height (or all of it) is never voted here: the box is taken past it by the next stage
+			if cur >= c05MaxHeight {
+				t.Skip("top height reached")
+			}
+
+			cur++
+			program = nil
+			w.history = append(w.history, fmt.Sprintf("walk skips to height %d", cur))
+		},
+		"setLastPoint": func(t *rapid.T) {
+			// the states hand the box a voteproof they got elsewhere (sync): the height is finished without a cleanup
+			if cur >= c05MaxHeight {
+				t.Skip("top height reached")
+			}
+
+			vp := w.acceptVP(cur)
+			ok := w.box.SetLastPointFromVoteproof(vp)
+			w.history = append(w.history, fmt.Sprintf("setLastPoint %v majority=true -> %v", vp.Point(), ok))
+
+			cur++
+			program = nil
+		},
+		"count": func(t *rapid.T) {
+			w.history = append(w.history, "count")
+			w.box.Count()
+		},
+		"": func(t *rapid.T) { check() },
+	}
+
+	// rapid picks actions uniformly: the walk's stages and the late deliveries are what the histories are about
+	actions["stage2"], actions["stage3"], actions["late2"] = actions["stage"], actions["stage"], actions["late"]
+
+	rt.Repeat(actions)
+
+	w.box.Count()
+	check()
+
+	return w, counted, lateGone
 }
 
 func TestC05(t *testing.T) {
 	r := ev.Start(t, "C05")
 	defer r.Finish()
-	r.Rule("the C04 state machine with longer histories over many stage points (ordinary and suffrage-confirm ballots, runs that reach majorities, SetLastPoint advances) so that cleanup runs " +
-		"several times; after every step the record table (hook H1) must hold one live record object per key, stored under the key of the point it holds, never a released one; every release to the " +
-		"record pool must be of a record that is neither still in the table nor already released; Voted/MissingNodes only speak about their own stage point; emitted voteproofs are judged as in C04. " +
-		"non-trivial = history with >=2 counted voteproofs (>=2 cleanup cycles) and a suffrage-confirm ballot; distinct by history")
+	r.Rule("phase 1: the C04 state machine with longer histories over many stage points (ordinary and suffrage-confirm ballots, runs that reach majorities, SetLastPoint advances) so that cleanup runs " +
+		"several times. phase 2 (walk): the box is walked up the heights 33.. stage by stage (INIT/ACCEPT, or expel INIT / suffrage confirm / ACCEPT; sometimes a node short, heights skipped or finished by " +
+		"SetLastPointFromVoteproof) so that every stage point is moved past, removed by one cleanup and released by the next, while late ballots (ordinary, conflicting, expel-carrying and suffrage-confirm, any signer) " +
+		"for stage points at or below the box's position, exact replays of earlier ballots and stray ballots around the position keep arriving between the stages. " +
+		"after every step the record table (hook H1) must hold one live record object per key, stored under the key of the point it holds, never a released one; every release to the " +
+		"record pool must be of a record that is neither still in the table nor already released; a stage point counts as finished once the height of LastPoint() is above its height (as of the previous step): " +
+		"the table must not hold a record of a finished point that the point did not have when it became finished (never re-created), only those records may be released and each once (no second release of the " +
+		"point, no release of a suffrage-confirm record that never was live), and Voted/MissingNodes/StuckVoteproof answer nothing for a finished point with no record left; Voted/MissingNodes only speak about " +
+		"their own stage point; emitted voteproofs are judged as in C04. " +
+		"non-trivial = phase 1: history with >=2 counted voteproofs (>=2 cleanup cycles) and a suffrage-confirm ballot; phase 2: >=3 counted voteproofs, >=1 legitimate release of a finished point's record and " +
+		">=1 late ballot for a finished point with no record left; distinct by history")
 	r.Floor(15)
-	r.Assume("ballots satisfy bl.IsValid(networkID)", "record identity = object address observed through the verif hook; pool re-use of an address for a new record is legitimate")
+	r.Assume("ballots satisfy bl.IsValid(networkID)", "record identity = object address observed through the verif hook; pool re-use of an address for a new record is legitimate",
+		"'moved past a stage point' is judged only across heights (LastPoint() never returns to a lower height); inside one height the box re-admits some lower points on purpose "+
+			"(suffrage-confirm ballots after a draw), those are not judged")
 
 	r.Checks(120, 6000)
 	r.Steps(50)
@@ -197,8 +596,34 @@ func TestC05(t *testing.T) {
 		r.Case(strings.Join(w.history, ";"), nontrivial, fmt.Sprintf("sc:%v", hadSC), fmt.Sprintf("counted>=2:%v", counted >= 2))
 		r.Class("pool_puts", int64(st.puts))
 
+		r.Class("releases_of_finished_points", int64(st.relFin))
+
 		if nontrivial && r.WantSample() {
 			r.Sample(map[string]any{"n": w.n, "threshold": w.th.Float64(), "history": w.history, "counted_voteproofs": counted, "pool_puts": st.puts})
+		}
+	})
+
+	if r.Failed() {
+		return
+	}
+
+	// ---- second phase: the walk with late and replayed ballots
+	r.Checks(60, 3000)
+	r.Steps(40)
+
+	rapid.Check(t, func(rt *rapid.T) {
+		st := &c05State{}
+		w, counted, lateGone := c05Machine(rt, r, st)
+
+		nontrivial := counted >= 3 && lateGone >= 1 && st.relFin >= 1
+		r.Case("walk;"+strings.Join(w.history, ";"), nontrivial, "phase:walk", fmt.Sprintf("walk-late-after-release:%v", lateGone >= 1), fmt.Sprintf("walk-counted>=3:%v", counted >= 3))
+		r.Class("pool_puts", int64(st.puts))
+		r.Class("releases_of_finished_points", int64(st.relFin))
+		r.Class("late_ballots_after_release", int64(lateGone))
+
+		if nontrivial && r.WantSample() {
+			r.Sample(map[string]any{"phase": "walk", "n": w.n, "threshold": w.th.Float64(), "history": w.history, "counted_voteproofs": counted, "pool_puts": st.puts,
+				"late_ballots_after_release": lateGone, "releases_of_finished_points": st.relFin})
 		}
 	})
 }
